@@ -217,6 +217,8 @@ def is_concrete(v, depth=0) -> bool:
         return False
     if getattr(v, "__pyvc_symbolic__", False):
         return False
+    if isinstance(v, (pytypes.FunctionType, pytypes.MethodType, pytypes.GeneratorType)) and (getattr(v, "__module__", "") or "").split(".")[0] == "pandera":
+        return False  # never hand live pandera code to a natively executed library call (it would run un-interpreted)
     if depth > 3:
         return True
     if isinstance(v, (list, tuple, set, frozenset)):
